@@ -55,7 +55,9 @@ def run(rep, tier, seed):
     from gram import layered_grammar
     cases += lf.bnf_cases(rng, 250 if tier == "quick" else 3000, tts=("LALR", "LALR_PAGER"), algo="LR",
                           max_len=3 if tier == "quick" else 4, n_sent=12, n_mut=12, generator=layered_grammar)
-    from gram import diamond_grammar, seq_grammar, twins_grammar
+    from gram import diamond_grammar, seq_grammar, twins_grammar, mutual_grammar
+    cases += lf.bnf_cases(rng, 60 if tier == "quick" else 900, tts=("LALR", "LALR_PAGER"), algo="LR",
+                          max_len=3, n_sent=14, n_mut=14, generator=mutual_grammar)
     cases += lf.bnf_cases(rng, 80 if tier == "quick" else 1200, tts=("LALR", "LALR_PAGER"), algo="LR",
                           max_len=3, n_sent=14, n_mut=14, generator=seq_grammar)
     cases += lf.bnf_cases(rng, 60 if tier == "quick" else 900, tts=("LALR", "LALR_PAGER"), algo="LR",
